@@ -565,7 +565,7 @@ class Built:
 def build(form: str, protected: dict, plaintext: bytes, rcpts: list[Rcpt], rng, unprotected: dict | None = None,
           aad: bytes | None = None, spell_header: bool = False, cek: bytes | None = None, iv: bytes | None = None,
           content_octets: bytes | None = None, protected_text: bytes | None = None, eph_factory=None,
-          p2c: int = 1000, zlib_wrap: bool = False) -> Built:
+          p2c: int = 1000, zlib_wrap: bool = False, wrap_cek: bytes | None = None) -> Built:
     """Encrypt as an RFC-conformant (or deliberately Byzantine) sender.
     protected must contain 'enc' (and for compact 'alg').  Algorithm parameters
     (epk, p2s/p2c, iv/tag) go to the protected header for compact, else to the
@@ -630,6 +630,9 @@ def build(form: str, protected: dict, plaintext: bytes, rcpts: list[Rcpt], rng, 
     else:
         out.cek = cek if cek is not None else rng.bytes_(ceklen)
     # wraps that do not depend on the content tag
+    content_cek = out.cek
+    if wrap_cek is not None and not direct:
+        out.cek = wrap_cek      # Byzantine: the recipients are handed another CEK than the content was encrypted with
     late = []
     for r in rcpts:
         if r.alg in DIRECT:
@@ -683,7 +686,7 @@ def build(form: str, protected: dict, plaintext: bytes, rcpts: list[Rcpt], rng, 
     else:
         m_octets = plaintext
     out.plaintext = plaintext
-    out.ct, out.tag = enc_encrypt(enc, out.cek, out.iv, a, m_octets)
+    out.ct, out.tag = enc_encrypt(enc, content_cek, out.iv, a, m_octets)
     for r in late:
         z = ecdh(r._eph, r.key) + ecdh(r.sender, r.key)
         r._ek = aes_kw_wrap(_agree(r.alg, enc, merged_for(r), z, out.tag), out.cek)
